@@ -125,9 +125,25 @@ func c17Random(c *Case, rng *Rng, stopAt int) {
 	defer w.close()
 	next := 10
 	nq := rng.Range(1, 3)
+	// stopAt < 0: the stop request comes during the set-up, before set-up op number -stopAt-1 (-1: the set is
+	// still empty — no queue has been created yet; queues created and started afterwards must be born stopped)
+	pre := 0
+	preStop := func() {
+		if stopAt < 0 && pre == -stopAt-1 && !w.stopped {
+			if len(w.order) == 0 {
+				c.Note("stop-at:before-the-first-queue")
+			} else {
+				c.Note("stop-at:during-set-up")
+			}
+			w.opStop()
+		}
+		pre++
+	}
 	for i := 1; i <= nq; i++ {
+		preStop()
 		w.opNew(i, true)
-		if rng.Chance(85) {
+		if rng.Chance(85) || (stopAt < 0 && i == 1) {
+			preStop()
 			w.opStart(i)
 		}
 	}
@@ -144,6 +160,9 @@ func c17Random(c *Case, rng *Rng, stopAt int) {
 		w.opDeliver(ts, rng.Bool(), "deliver")
 	}
 	total := stopAt + rng.Range(4, 14)
+	if stopAt < 0 {
+		total = rng.Range(4, 14)
+	}
 	for i := 0; i < total && w.bad == ""; i++ {
 		if i == stopAt {
 			c.Note("stop-at:" + strings.SplitN(w.qs[w.order[0]].at, ":", 2)[0])
@@ -230,6 +249,32 @@ func c17Random(c *Case, rng *Rng, stopAt int) {
 		return
 	}
 	w.oracleLog()
+	{
+		// the stop request reached the context of every queue of the set, whenever the queue was created
+		// (before the request, after it, after a request that found the set empty)
+		var heard []int
+		for _, n := range w.order {
+			if w.qs[n].q.VerifStopRequested() {
+				heard = append(heard, n)
+			}
+		}
+		// the model of WithContext / Stop / NewNamedQueue / Start (Model/SetContext) over the set-level operations
+		// of this case, in the order they were performed
+		var setOps []string
+		for _, l := range c.ops {
+			f := strings.Fields(l)
+			switch {
+			case len(f) == 1 && f[0] == "stop":
+				setOps = append(setOps, "S")
+			case len(f) >= 2 && f[0] == "new":
+				setOps = append(setOps, "n"+f[1])
+			case len(f) == 2 && f[0] == "start":
+				setOps = append(setOps, "s"+f[1])
+			}
+		}
+		c.Op("setctx ops="+joinStrs(setOps), fmt.Sprintf("requested=%v heard=%s", w.stopped, joinInts(heard)))
+		c.Oracle(fmt.Sprintf("stopheard want=%s heard=%s", w.names(), joinInts(heard)))
+	}
 	if rng.Chance(20) {
 		exitedAll := len(w.order) > 0
 		for _, n := range w.order {
@@ -512,7 +557,7 @@ func c17WaitBusy(c *Case, rng *Rng, nq, busy, kind, rounds int) {
 }
 
 func runC17(r *Run) {
-	r.Rule = "real TaskQueueSet + started TaskQueue workers + the real ManagerEventsHandler; every worker is stepped from one yield point to the next (loop, afterCtxCheck, beforeSelect, tick, handler entry, afterHandler, exit); a case is a random schedule over 1-4 queues (deliveries through the consumer incl. absent queues, handler results Success/Fail/Repeat/Keep with head/after/tail tasks and delays, Filter from inside the handler, repeated Start, queues created/started late) with TaskQueueSet.Stop() injected at position k (quick: k random in 0..30; thorough: every k in 0..40 for 150 schedule seeds, and exhaustively all 3432 interleavings of two workers (7 steps each) x 15 stop positions), then all workers run to exit, late deliveries and late starts follow; free-running cases (real goroutines, Stop() at a random moment while events keep arriving) check the weak form (at most one more start per queue, every worker exits, nothing after exit); whole-operator cases call the real ShellOperator.Shutdown() on an operator with bash hooks in several queues, one hook in the middle of its run and ticks still arriving, and check from the hook processes' markers and the queue statuses that after Shutdown() returned a queue starts at most the one task it had picked and nothing once it showed Status stop, and that every queue shows Status stop once the running hook returns; whole-operator cases with cluster events do the same on hooks with 1-3 schedule and kubernetes bindings each (every binding with no queue, `main`, or one of 1-4 names: queues named only by kubernetes bindings, only by schedule bindings, by both), the kubernetes bindings watching ConfigMaps of a fake cluster through the real informers and the real events consumer: a cluster change reaches every kubernetes binding before the shutdown, hook h1 hangs mid-run (2 of 3) with work queued behind it, changes in flight, Shutdown(), then more cluster changes (new objects, modifications, deletions) and ticks; checked: the stop request reached the context of every queue the configurations name, after Shutdown() returned a queue starts at most the one task it had picked and nothing once it showed stop (no bound on how late a hook process writes its marker), every queue shows stop, no object created after the shutdown appears in an execution; the real WaitStopWithTimeout is run with 2-4 (thorough 2-6) queues created in a shuffled order, each queue in turn the unfinished one (in the middle of a handler / parked in its loop) while the others have exited, over several rounds of its 100 ms check (a fresh map order each): it must not be back before that worker has exited and must end ahead of its timeout afterwards; whole-operator cases with a silent API server (one at a time) request the real Shutdown() while the main queue's handler is inside AddMonitor / StartMonitor of a later hook (a reactor on the fake dynamic client holds that LIST request), hook h1 hanging mid-run with runs of other hooks queued behind it and every other queue run dry: Shutdown() must come back, the stop request must have reached every queue, a queue starts at most the one task it had picked, every named queue shows stop once h1 returns (the API server still silent) and main once the API server answers; whenever a worker was inside its handler for a whole Shutdown() call, the call must not have returned ahead of WaitQueuesTimeout; one case runs the real ScheduleManager with an every-second crontab and checks that no tick arrives once Stop() has taken effect; when the stop finds a worker before the select the ticker is given time to fire so that both select cases are ready. Non-trivial = the observed event trace has >= 6 events; distinct = distinct op-line sequences."
+	r.Rule = "real TaskQueueSet + started TaskQueue workers + the real ManagerEventsHandler; every worker is stepped from one yield point to the next (loop, afterCtxCheck, beforeSelect, tick, handler entry, afterHandler, exit); a case is a random schedule over 1-4 queues (deliveries through the consumer incl. absent queues, handler results Success/Fail/Repeat/Keep with head/after/tail tasks and delays, Filter from inside the handler, repeated Start, queues created/started late) with TaskQueueSet.Stop() injected at position k (quick: k random in 0..30; thorough: every k in 0..40 for 150 schedule seeds, and exhaustively all 3432 interleavings of two workers (7 steps each) x 15 stop positions), then all workers run to exit, late deliveries and late starts follow; free-running cases (real goroutines, Stop() at a random moment while events keep arriving) check the weak form (at most one more start per queue, every worker exits, nothing after exit); whole-operator cases call the real ShellOperator.Shutdown() on an operator with bash hooks in several queues, one hook in the middle of its run and ticks still arriving, and check from the hook processes' markers and the queue statuses that after Shutdown() returned a queue starts at most the one task it had picked and nothing once it showed Status stop, and that every queue shows Status stop once the running hook returns; whole-operator cases with cluster events do the same on hooks with 1-3 schedule and kubernetes bindings each (every binding with no queue, `main`, or one of 1-4 names: queues named only by kubernetes bindings, only by schedule bindings, by both), the kubernetes bindings watching ConfigMaps of a fake cluster through the real informers and the real events consumer: a cluster change reaches every kubernetes binding before the shutdown, hook h1 hangs mid-run (2 of 3) with work queued behind it, changes in flight, Shutdown(), then more cluster changes (new objects, modifications, deletions) and ticks; checked: the stop request reached the context of every queue the configurations name, after Shutdown() returned a queue starts at most the one task it had picked and nothing once it showed stop (no bound on how late a hook process writes its marker), every queue shows stop, no object created after the shutdown appears in an execution; the real WaitStopWithTimeout is run with 2-4 (thorough 2-6) queues created in a shuffled order, each queue in turn the unfinished one (in the middle of a handler / parked in its loop) while the others have exited, over several rounds of its 100 ms check (a fresh map order each): it must not be back before that worker has exited and must end ahead of its timeout afterwards; whole-operator cases with a silent API server (one at a time) request the real Shutdown() while the main queue's handler is inside AddMonitor / StartMonitor of a later hook (a reactor on the fake dynamic client holds that LIST request), hook h1 hanging mid-run with runs of other hooks queued behind it and every other queue run dry: Shutdown() must come back, the stop request must have reached every queue, a queue starts at most the one task it had picked, every named queue shows stop once h1 returns (the API server still silent) and main once the API server answers; whenever a worker was inside its handler for a whole Shutdown() call, the call must not have returned ahead of WaitQueuesTimeout; the stop request is also placed inside the set-up of a controlled case (quick: 8 % of the cases; thorough: positions -4..-1 of every schedule seed): before the first NewNamedQueue — the set is empty —, between NewNamedQueue and Start, between two queues; queues created and started after it must be born stopped, and at the end of every controlled case the context of every queue of the set must have heard the request (stopheard) and the model of WithContext / Stop / NewNamedQueue is compared on the set-level operations of the case (setctx); in the whole-operator cases with cluster events 2 of 5 configurations use two queue names that are near-copies of each other (differ by case only — q2 / Q2, main / Main / MAIN —, or one a prefix of the other), both in use, in either order and by either kind of binding; a tick must lead to an execution through every schedule binding (and a cluster change through every kubernetes binding) before the shutdown; every queue the set holds after the run — whatever its name, whoever created it — is held to stopheard / terminated / weakstop, queues no binding names are reported to the model; in 1 of 5 of these cases the real Shutdown() is called during the start-up instead, between two queue-related steps of Start() (before bootstrapMainQueue — no queue exists —, before StartMain, before initAndStartHookQueues, before the events consumer starts), the start goes on, cluster changes and ticks follow; one case runs the real ScheduleManager with an every-second crontab and checks that no tick arrives once Stop() has taken effect; when the stop finds a worker before the select the ticker is given time to fire so that both select cases are ready. Non-trivial = the observed event trace has >= 6 events; distinct = distinct op-line sequences."
 	if os.Getenv("VERIF_C17_ONLY") == "slowapi" { // debugging aid: this one family alone, as parallel as in a full run
 		shell_operator.WaitQueuesTimeout = time.Second
 		r.Cases(80000, r.N(12, 60), 1, func(c *Case, rng *Rng) { c17OperatorSlowAPI(r, c, rng) })
@@ -536,7 +581,11 @@ func runC17(r *Run) {
 	}()
 	n := r.N(1200, 8000)
 	r.Cases(10, n, 0, func(c *Case, rng *Rng) {
-		c17Random(c, rng, rng.Range(0, 30))
+		stopAt := rng.Range(0, 30)
+		if rng.Chance(8) {
+			stopAt = -rng.Range(1, 4) // during the set-up: before the first queue exists, between NewNamedQueue and Start, ...
+		}
+		c17Random(c, rng, stopAt)
 	})
 	r.Cases(50000, r.N(300, 3000), 0, func(c *Case, rng *Rng) { c17Free(c, rng) })
 	// the wait of Shutdown(): 2..maxq queues, each of them in turn the one that is not finished, in the middle
@@ -573,11 +622,11 @@ func runC17(r *Run) {
 	<-cronDone
 	if r.Thorough() {
 		// every stop position for a set of schedule seeds
-		const seeds, positions = 150, 41
+		const seeds, positions, early = 150, 45, 4 // positions -4..-1 are set-up positions (-1: before the first queue)
 		r.Cases(100000, seeds*positions, 0, func(c *Case, _ *Rng) {
 			k := c.Idx - 100000
 			rng := NewRng(r.Seed*7919 + uint64(k/positions)) // same schedule, different stop position
-			c17Random(c, rng, k%positions)
+			c17Random(c, rng, k%positions-early)
 		})
 		// exhaustive small scope: every interleaving of two workers (7 steps each) x every stop position
 		var masks []uint
@@ -596,6 +645,6 @@ func runC17(r *Run) {
 		})
 		r.Exhaust = true
 		r.Extra["exhaustive_scope"] = fmt.Sprintf("all %d interleavings of two queue workers (7 steps each, one task each) x 15 stop positions", len(masks))
-		r.Extra["stop_positions"] = fmt.Sprintf("every stop position 0..%d for %d schedule seeds", positions-1, seeds)
+		r.Extra["stop_positions"] = fmt.Sprintf("every stop position -%d..%d (negative: during the set-up, -1 = before the first queue exists) for %d schedule seeds", early, positions-early-1, seeds)
 	}
 }
